@@ -9,6 +9,7 @@ of the tree under test ($EG_REPO, default /repo):
   core/src/pixelcolor/raw/mod.rs       impl_raw_data!(...) rows (storage type, bits per pixel), MASK formula
   core/src/pixelcolor/raw/to_bytes.rs  impl_to_bytes!(...) rows and the hand-written RawU24 slices
   core/src/pixelcolor/mod.rs           IntoStorage::into_storage
+  core/src/pixelcolor/web_colors.rs    the web_colors! invocation: implementing types and every (CSS_*, (r, g, b)) entry
   core/src/pixelcolor/conversion.rs    convert_channel constants, luma weights, binary threshold,
                                        every impl_*conversion!/impl_*binary! row (the provided From pairs)
 
@@ -190,6 +191,12 @@ need_lit(rgb_src, 'impl From<$data_type> for $type { fn from(data: $data_type) -
 need_lit(rgb_src, 'impl From<$type> for $data_type { fn from(color: $type) -> Self { Self::new(color.0) } }', 'Into<Raw>', 'rgb_color.rs')
 need_lit(rgb_src, 'const BLACK: Self = Self::new(0, 0, 0);', 'BLACK', 'rgb_color.rs')
 need_lit(rgb_src, 'const WHITE: Self = Self::new(Self::MAX_R, Self::MAX_G, Self::MAX_B);', 'WHITE', 'rgb_color.rs')
+need_lit(rgb_src, 'const RED: Self = Self::new(Self::MAX_R, 0, 0);', 'RED', 'rgb_color.rs')
+need_lit(rgb_src, 'const GREEN: Self = Self::new(0, Self::MAX_G, 0);', 'GREEN', 'rgb_color.rs')
+need_lit(rgb_src, 'const BLUE: Self = Self::new(0, 0, Self::MAX_B);', 'BLUE', 'rgb_color.rs')
+need_lit(rgb_src, 'const YELLOW: Self = Self::new(Self::MAX_R, Self::MAX_G, 0);', 'YELLOW', 'rgb_color.rs')
+need_lit(rgb_src, 'const MAGENTA: Self = Self::new(Self::MAX_R, 0, Self::MAX_B);', 'MAGENTA', 'rgb_color.rs')
+need_lit(rgb_src, 'const CYAN: Self = Self::new(0, Self::MAX_G, Self::MAX_B);', 'CYAN', 'rgb_color.rs')
 need_lit(rgb_src, 'pub struct $type($storage_type);', 'struct', 'rgb_color.rs')
 need_lit(rgb_src, 'impl PixelColor for $type { type Raw = $data_type; }', 'PixelColor::Raw', 'rgb_color.rs')
 
@@ -368,6 +375,32 @@ for c in colors:
     if c['kind'] == 'rgb' and c['name'] != via_rgb and (c['name'], via_rgb) not in seen:
         die('conversion.rs: %s -> %s (used by the gray/binary conversions) is not provided' % (c['name'], via_rgb))
 
+# ------------------------------------------------------------------------------------------ web_colors.rs
+m = need(cv_src, r'pub\(crate\)constfnwith_rgb888\(r:u8,g:u8,b:u8\)->Self\{Self::new\('
+         r'convert_channel::<\{(\w+)::MAX_R\},\{\$from_type::MAX_R\}>\(r\),'
+         r'convert_channel::<\{(\w+)::MAX_G\},\{\$from_type::MAX_G\}>\(g\),'
+         r'convert_channel::<\{(\w+)::MAX_B\},\{\$from_type::MAX_B\}>\(b\),\)\}', 'with_rgb888', 'conversion.rs')
+if not (m.group(1) == m.group(2) == m.group(3)) or m.group(1) not in byname or byname[m.group(1)]['kind'] != 'rgb':
+    die('conversion.rs: with_rgb888 source type not understood')
+web_src_type = m.group(1)
+web_src = read('web_colors.rs')
+need_lit(web_src, 'const $ident: Self = Self::with_rgb888($r, $g, $b);', 'impl_web_colors body', 'web_colors.rs')
+need_lit(web_src, 'web_colors_trait!($colors); $( impl_web_colors!($type, $colors); )*', 'web_colors! body', 'web_colors.rs')
+ms = list(re.finditer(r'^web_colors!\(\s*\(([^)]*)\),\s*\[(.*?)\]\s*\);', web_src, re.M | re.S))
+if len(ms) != 1 or len(re.findall(r'^\s*web_colors!\(', web_src, re.M)) != 1:
+    die('web_colors.rs: expected exactly one top-level web_colors! invocation')
+web_types = names(ms[0].group(1), 'web_colors!')
+for t in web_types:
+    kind_is(t, 'rgb', 'web_colors!')
+if len(set(web_types)) != len(web_types):
+    die('web_colors.rs: duplicate type in web_colors!')
+body = ms[0].group(2)
+web = re.findall(r'\(\s*(CSS_\w+)\s*,\s*"[^"]*"\s*,\s*\(\s*(\d+)\s*,\s*(\d+)\s*,\s*(\d+)\s*\)\s*\)\s*,', body)
+if not web or len(web) != body.count('CSS_') or len(web) != body.count('"') // 2:
+    die('web_colors.rs: colour list not understood (%d entries parsed)' % len(web))
+if len(set(w[0] for w in web)) != len(web):
+    die('web_colors.rs: duplicate colour name')
+
 # ------------------------------------------------------------------------------------------ output
 
 
@@ -450,6 +483,13 @@ tbl += '(* every From<A> for B provided by conversion.rs: (family, A, B); %d pai
 tbl += 'Definition conv_pairs : list (family * crow * crow) :=\n  [' + ';\n   '.join(
     '(%s, row_%s, row_%s)' % p for p in pairs) + '].\n'
 
+tbl += '\n(* conversion.rs with_rgb888: the type whose maxima the 8 bit arguments are scaled from *)\n'
+tbl += 'Definition web_src : crow := row_%s.\n' % web_src_type
+tbl += '(* web_colors.rs: the types that implement WebColors and every CSS colour (ident, (r, g, b)); %d colours *)\n' % len(web)
+tbl += 'Definition web_types : list crow := [' + '; '.join('row_' + t for t in web_types) + '].\n'
+tbl += 'Definition web_colors : list (list Z * (Z * Z * Z)) :=\n  [' + ';\n   '.join(
+    '(%s, (%s, %s, %s))' % (zlist(n), r, g, b) for n, r, g, b in web) + '].\n'
 write_if_changed(os.path.join(GEN, 'ColorConsts.v'), consts)
 write_if_changed(os.path.join(GEN, 'ColorTable.v'), tbl)
-print('gen_colors.py: %d raw types, %d colour types, %d conversion pairs' % (len(raw_order), len(colors), len(pairs)))
+print('gen_colors.py: %d raw types, %d colour types, %d conversion pairs, %d web colours x %d types' % (
+    len(raw_order), len(colors), len(pairs), len(web), len(web_types)))
